@@ -13,16 +13,24 @@ tests=$( cd $W && PYTHONPATH=$W/src /venv/bin/python -m pytest -q -p no:cachepro
 ( cd $W && PYTHONPATH=$W/src /venv/bin/python $S/demo.py >/dev/null 2>&1 ); mut_demo=$?
 git -C $W checkout -q -- .
 echo "worktree: demo clean exit=$clean_demo, with change exit=$mut_demo, tests: $tests"
-git -C /repo apply $S/patch.diff || { echo "patch does not apply to /repo"; exit 2; }
+[ -z "$(git -C /repo status --short)" ] || { echo "/repo is not clean"; exit 2; }
+how=plain
+if ! git -C /repo apply $S/patch.diff 2>/dev/null; then
+  # /repo has moved on since the scratch worktree was cut (later fix: commits): merge the change three-way
+  how=3way
+  git -C /repo apply -3 $S/patch.diff >/dev/null 2>&1 || { git -C /repo reset -q --hard HEAD; echo "patch does not apply to /repo (even three-way)"; exit 2; }
+fi
 t0=$(date +%s)
-VERIF_EVIDENCE_DIR=$(mktemp -d /var/tmp/seedev.XXXX) ./check $P --tier $TIER > /tmp/seedeval.$P.$N.log 2>&1; rc=$?
+E=$(mktemp -d /var/tmp/seedev.XXXX)
+VERIF_EVIDENCE_DIR=$E ./check $P --tier $TIER > /tmp/seedeval.$P.$N.log 2>&1; rc=$?
+rm -rf $E
 t1=$(date +%s)
-git -C /repo checkout -q -- .
+git -C /repo reset -q --hard HEAD
 git -C /repo status --short | head -3
 leg=$(grep "failing leg" /tmp/seedeval.$P.$N.log | head -1 | cut -c1-260)
 echo "check $P ($TIER): exit=$rc in $((t1-t0))s $leg"
 cat > $D/meta.json <<EOM
 {"property": "$P", "source": "independent sub-agent given only the property text and a scratch worktree",
  "confirmed": {"demo_exit_unchanged_tree": $clean_demo, "demo_exit_with_change": $mut_demo, "repository_tests_with_change": "$tests"},
- "check_run": {"command": "./check $P --tier $TIER", "exit": $rc, "seconds": $((t1-t0))}}
+ "applied_to_repo": "$how", "check_run": {"command": "./check $P --tier $TIER", "exit": $rc, "seconds": $((t1-t0))}}
 EOM
